@@ -164,20 +164,29 @@ func first(s []string, n int) []string {
 func ClassifyCrash(stderr string) (class, sig string) {
 	switch {
 	case strings.Contains(stderr, "stack overflow") || strings.Contains(stderr, "goroutine stack exceeds"):
-		// the recursing function is the most frequent vuego frame of the trace
+		// the recursing function is the most frequent frame of the trace (vuego or a dependency)
 		fn := "?"
-		re := regexp.MustCompile(`(?m)^github.com/titpetric/vuego[^\s(]*\.([A-Za-z0-9_().*]+)\(`)
+		re := regexp.MustCompile(`(?m)^[a-zA-Z0-9_./-]+/([a-zA-Z0-9_-]+\.[A-Za-z0-9_().*]+)\(`)
 		cnt := map[string]int{}
 		for _, m := range re.FindAllStringSubmatch(stderr, -1) {
 			cnt[m[1]]++
 		}
 		best := 0
+		for _, n := range cnt {
+			if n > best {
+				best = n
+			}
+		}
+		// mutually recursive functions appear about equally often (the trace is truncated): among the frequent
+		// ones name the alphabetically first, so that the signature is stable
 		for f, n := range cnt {
-			if n > best || (n == best && f < fn) {
-				fn, best = f, n
+			if n*5 >= best*4 && (fn == "?" || f < fn) {
+				fn = f
 			}
 		}
 		return "fatal-stack-overflow", "fatal stack overflow (process killed), recursion in " + fn
+	case strings.Contains(stderr, "simcheck: memory budget exceeded"):
+		return "memory-explosion", "render grows without bound (memory budget exceeded, process ended)"
 	case strings.Contains(stderr, "fatal error:"):
 		i := strings.Index(stderr, "fatal error:")
 		return "fatal-error", "fatal: " + firstLine(stderr[i:])
